@@ -12,7 +12,8 @@ TABLE = json.load(open(os.path.join(facts.VERIF, 'tables', 'c10.json')))
 FIELD_DIR = 'src/Persistence_matrix/include/gudhi/Fields/'
 UNITS = [Unit('fields', 'fields_inst.cpp',
               [FIELD_DIR, 'src/Persistent_cohomology/include/gudhi/Persistent_cohomology/Field_Zp.h',
-               'src/Persistent_cohomology/include/gudhi/Persistent_cohomology/Multi_field.h'])]
+               'src/Persistent_cohomology/include/gudhi/Persistent_cohomology/Multi_field.h',
+               os.path.join(facts.VERIF, 'drivers', 'fields_inst.cpp')])]
 
 
 def field_zp_bound(F):
@@ -116,6 +117,11 @@ def run(tier, replay=None):
     run_isprime(chk, F, tier)
     run_partial_inverse(chk, F)
     run_idempotents(chk, F)
+    run_inplace_targets(chk, F)
+    run_euclid_width(chk, F)
+    run_reduced_guards(chk, F)
+    run_cohomology_closure(chk, F)
+    run_use_sites(chk, F)
     chk.assumptions += ['clang 14 parser/Sema and its implicit-conversion nodes', 'operands of the arithmetic helpers '
                         'are reduced (the property quantifies over reduced operands)', 'helper contracts of '
                         'tables/c10.json are each verified on the helper itself']
@@ -702,3 +708,338 @@ def run_idempotents(chk, F):
                        '%s:%s' % (rel(f['file']), x.get('l')), ok, '' if ok else 'exponent argument `%s`' % a[2:3],
                        key='E8|%s::%s|idempotent-power' % (cls, f['name']))
     chk.expect_count('E8-idempotent', 'idempotent powers', n, 5)
+
+
+# ------------------------------------------------------------------ in-place operations write where their name says
+
+def run_inplace_targets(chk, F):
+    """E7c-inplace: `x_inplace_front(a, b[, c])` stores the result in its first operand, `x_inplace_back` in its last:
+    in every operator class that operand - and no other - is a non-const reference, and every assignment of the body
+    whose target is a parameter targets that one (a result assigned to a by-value parameter is lost)."""
+    n = 0
+    for f in F.functions:
+        if f.get('inst') not in (0, 2) or f.get('body') is None or FIELD_DIR not in f['file']:
+            continue
+        nm = f['name']
+        if not (nm.endswith('_inplace_front') or nm.endswith('_inplace_back')) or not f.get('params'):
+            continue
+        n += 1
+        ps = f['params']
+        want = ps[0] if nm.endswith('_front') else ps[-1]
+        cls = f.get('clsname') or '?'
+
+        def is_out(p_):
+            t = (p_.get('t') or '')
+            return t.rstrip().endswith('&') and not t.lstrip().startswith('const ') and '&&' not in t
+        outs = [p_['n'] for p_ in ps if is_out(p_)]
+        ok_sig = outs == [want['n']]
+        names = {p_['n'] for p_ in ps}
+        wrong = None
+        for x in ir.walk(f['body']):
+            tgt = ir.write_target(x) if hasattr(ir, 'write_target') else None
+            if tgt is None:
+                continue
+            r = ir.skipcasts(tgt)
+            while r is not None and r.get('k') in ir.MEMBER_KINDS and r.get('c'):
+                r = ir.skipcasts(r['c'][0])
+            if r is not None and r.get('k') == 'DeclRefExpr' and r.get('n') in names and r['n'] != want['n'] \
+                    and wrong is None:
+                wrong = (r['n'], x)
+        ok = ok_sig and wrong is None
+        # inputs taken by reference may be the output object itself: they are all read before the output is written
+        ref_ins = [p_['n'] for p_ in ps if p_ is not want and (p_.get('t') or '').rstrip().endswith('&')]
+        if ref_ins and ok:
+            order = list(ir.walk(f['body']))
+            first_w = None
+            for idx_, x in enumerate(order):
+                tgt = ir.write_target(x)
+                if tgt is not None and ir.show(tgt).replace(' ', '') == want['n']:
+                    first_w = (idx_, x)
+                    break
+            late = None
+            if first_w is not None:
+                inside = {id(y) for y in ir.walk(first_w[1])}
+                for x in order[first_w[0]:]:
+                    if id(x) in inside:
+                        continue
+                    if x.get('k') == 'DeclRefExpr' and x.get('n') in ref_ins:
+                        late = x
+                        break
+            chk.ob('E7c-inplace', '%s::%s reads its reference inputs before it writes `%s`' % (cls, nm, want['n']),
+                   '%s:%d' % (rel(f['file']), f['line']), late is None,
+                   '' if late is None else '`%s` is read at line %s after `%s` was written at line %s: when both are '
+                   'the same object the second step uses the intermediate value' % (late['n'], late.get('l'),
+                                                                                 want['n'], first_w[1].get('l')),
+                   key='E7c|%s::%s|inplace-alias' % (cls, nm))
+        chk.ob('E7c-inplace', '%s::%s stores its result in `%s`' % (cls, nm, want['n']),
+               '%s:%d' % (rel(f['file']), f['line']), ok,
+               '' if ok else ('the non-const reference parameter(s) are %s, expected [%s]' % (outs, want['n'])
+                              if not ok_sig else 'line %s assigns to the parameter `%s`' % (wrong[1].get('l'), wrong[0])),
+               key='E7c|%s::%s|inplace-target' % (cls, nm))
+    chk.expect_count('E7c-inplace', 'in-place operations', n, 24)
+
+
+# ------------------------------------------------------------------ extended Euclid: no operand is squeezed into int
+
+def run_euclid_width(chk, F):
+    """E4-euclid: the inverses of the small multi-fields come from an extended Euclid on (element, modulus), where
+    the modulus is any product of primes that fits the element type (e.g. the range [3,30]: 3234846615 > 2^31).
+    Every integral conversion inside `_get_inverse` whose operand has the element / characteristic type (or an
+    unsigned type of that width) goes to a type that represents all its values: wider, or unsigned of the same
+    width. Decided on the instantiations (concrete integer types)."""
+    n = 0
+    seen = set()
+    for f in F.functions:
+        if f['name'] != '_get_inverse' or f.get('body') is None or f.get('inst') not in (1, 2):
+            continue
+        cls = (f.get('clsname') or f['qual'].split('::')[-2]).split('<')[0]
+        if cls in seen or 'small' not in cls:
+            continue
+        seen.add(cls)
+        n += 1
+        bad = None
+        ncasts = 0
+        ret_nodes = set()
+        for r_ in ir.walk(f['body']):
+            if r_.get('k') == 'ReturnStmt' and r_.get('value') is not None:
+                ret_nodes |= {id(y) for y in ir.walk(r_['value'])}
+        for x in ir.walk(f['body']):
+            if x.get('k') not in ir.CAST_KINDS or x.get('ck') != 'IntegralCast':
+                continue
+            ch = (x.get('c') or [None])[0]
+            if ch is None or ch.get('bits') is None or x.get('bits') is None:
+                continue
+            if ch.get('sgn'):
+                # signed working values (remainders, coefficients): they may not be narrowed either, except in the
+                # returned value (the result is in [0, mod))
+                if x['bits'] < ch['bits'] and id(x) not in ret_nodes and bad is None:
+                    ncasts += 1
+                    bad = (x, ch)
+                continue
+            if ir.skipcasts(ch) is not None and ir.skipcasts(ch).get('k') == 'IntegerLiteral':
+                continue
+            ncasts += 1
+            lossless = x['bits'] > ch['bits'] or (not x.get('sgn') and x['bits'] >= ch['bits'])
+            if not lossless and bad is None:
+                bad = (x, ch)
+        chk.ob('E4-euclid', '%s::_get_inverse keeps element and modulus in a type that holds them (%d conversions)'
+               % (cls, ncasts), '%s:%d' % (rel(f['file']), f['line']), bad is None,
+               '' if bad is None else 'line %s: `%s` (%s, %d bits) is converted to %s (%d bits%s): a modulus '
+               'or element of 2^%d or more changes value - get_inverse is wrong for prime ranges whose product exceeds '
+               '2^%d although it fits the element type' % (bad[0].get('l'), ir.show(bad[1]), bad[1].get('t'),
+                                                           bad[1]['bits'], bad[0].get('t'), bad[0]['bits'],
+                                                           ', signed' if bad[0].get('sgn') else '',
+                                                           bad[0]['bits'] - (1 if bad[0].get('sgn') else 0),
+                                                           bad[0]['bits'] - (1 if bad[0].get('sgn') else 0)),
+               key='E4|%s::_get_inverse|width' % cls)
+    chk.expect_count('E4-euclid', 'extended Euclid helpers of the small multi-fields', n, 3)
+
+
+# ------------------------------------------------------------------ "already reduced" shortcuts of the GMP multi-fields
+
+def run_reduced_guards(chk, F):
+    """E7d-reduced-guard: the GMP multi-field classes accept raw mpz_class operands, which may be negative. A test that
+    treats such an operand as already reduced - it skips mpz_mod, or compares / combines the raw value directly - has
+    to bound it on both sides: `0 <= v < Q` (or `-Q <= v < Q` followed by a sign correction). A one-sided test
+    (`v < Q`, `v >= Q`) lets every negative value through unreduced."""
+    n = 0
+    for f in F.functions:
+        if f.get('inst') not in (0, 2) or f.get('body') is None:
+            continue
+        if not any(f['file'].endswith(h) for h in ('Fields/Multi_field.h', 'Fields/Multi_field_shared.h',
+                                                   'Fields/Multi_field_operators.h')):
+            continue
+        for x in ir.walk(f['body']):
+            if x.get('k') != 'IfStmt' or x.get('constexpr'):
+                continue
+            ct = ir.show(x.get('cond')).replace(' ', '')
+            if 'productOfAllCharacteristics_' not in ct:
+                continue
+            # raw operands compared with the product
+            vs = set()
+            for y in ir.walk(x.get('cond')):
+                if y.get('k') in ('BinaryOperator', 'CXXOperatorCallExpr') and y.get('op') in ('<', '<=', '>', '>='):
+                    cs = [ir.show(c).replace(' ', '') for c in (y.get('c') or [])[-2:]]
+                    for a, b in ((cs[0], cs[1]), (cs[1], cs[0])):
+                        if b == 'productOfAllCharacteristics_' and re.match(r'^\w+$', a):
+                            vs.add(a)
+            for v in sorted(vs):
+                n += 1
+                lower = re.search(r'(?<!\w)%s(<|>=)0(?!\w)' % re.escape(v), ct) or \
+                    re.search(r'0(<=|>)%s(?!\w)' % re.escape(v), ct) or \
+                    re.search(r'(?<!\w)%s(<|>=)-?\(?-?productOfAllCharacteristics_' % re.escape(v), ct.replace(
+                        v + '<productOfAllCharacteristics_', '').replace(v + '>=productOfAllCharacteristics_', ''))
+                cls = f.get('clsname') or f['qual'].split('::')[-2]
+                chk.ob('E7d-reduced-guard', '%s::%s (line %s): the test on `%s` bounds it on both sides' %
+                       (cls, f['name'], x.get('l'), v), '%s:%s' % (rel(f['file']), x.get('l')), bool(lower),
+                       '' if lower else '`%s` only compares `%s` with the product of the characteristics: a negative '
+                       'operand takes the "already reduced" arm and is used unreduced' % (ir.show(x.get('cond')), v),
+                       key='E7d|%s::%s|%s|reduced-guard|%s' % (cls, f['name'], v, len([1 for _ in ()])))
+    chk.expect_count('E7d-reduced-guard', '"already reduced" tests on raw operands', n, 6)
+
+
+# ------------------------------------------------------------------ cohomology Multi_field: results are reduced
+
+INF = float('inf')
+
+
+def run_cohomology_closure(chk, F):
+    """E3-closure (GMP): the arithmetic of the cohomology Multi_field works on mpz_class (no wrap), so the value of a
+    returned expression is an exact integer: intervals in units of Q = prod_characteristics_ are propagated through
+    + - * and % (operands are reduced: 0 <= x, y, w <= Q - 1; `E % Q` of a non-negative E lies in [0, Q - 1], of a
+    possibly negative E in [-(Q - 1), Q - 1]; `if (r < 0) r += Q` is understood), and every returned value must lie
+    in [0, Q - 1]. Intervals are pairs (a*Q + b) with the comparison done for all Q >= 2."""
+    fns = [f for f in F.functions if f.get('clsname') == 'Multi_field' and f.get('inst') in (0, 2) and
+           f['file'].endswith('Persistent_cohomology/Multi_field.h') and f.get('body') is not None and
+           f['name'] in ('times_minus', 'plus_times_equal')]
+    Q = 'prod_characteristics_'
+
+    # a bound is (a, b) meaning a*Q + b, or +-INF
+    def le(x, y):      # x <= y for all Q >= 2 ?
+        if x == -INF or y == INF:
+            return True
+        if x == INF or y == -INF:
+            return False
+        da, db = y[0] - x[0], y[1] - x[1]
+        return da >= 0 and 2 * da + db >= 0
+
+    def add(x, y):
+        if x in (INF, -INF):
+            return x
+        if y in (INF, -INF):
+            return y
+        return (x[0] + y[0], x[1] + y[1])
+
+    def neg(x):
+        if x == INF:
+            return -INF
+        if x == -INF:
+            return INF
+        return (-x[0], -x[1])
+    ZERO, QM1 = (0, 0), (1, -1)
+
+    def ev(e, env):
+        e = ir.skipcasts(e)
+        while e is not None and e.get('k') in ('ParenExpr', 'MaterializeTemporaryExpr', 'CXXBindTemporaryExpr',
+                                               'ExprWithCleanups', 'CXXConstructExpr', 'CXXFunctionalCastExpr') \
+                and len(e.get('c') or []) == 1:
+            e = ir.skipcasts(e['c'][0])
+        if e is None:
+            raise AnalysisBroken('empty expression')
+        k = e.get('k')
+        t = ir.show(e).replace(' ', '')
+        if t == Q:
+            return ((1, 0), (1, 0))
+        if k == 'DeclRefExpr':
+            if e['n'] in env:
+                return env[e['n']]
+            return (ZERO, QM1)                    # a reduced operand
+        if k == 'IntegerLiteral':
+            v = int(e['v'])
+            return ((0, v), (0, v))
+        if k in ('BinaryOperator', 'CXXOperatorCallExpr') and e.get('op') in ('+', '-', '*', '%'):
+            a, b = ev(e['c'][-2], env), ev(e['c'][-1], env)
+            op = e['op']
+            if op == '+':
+                return (add(a[0], b[0]), add(a[1], b[1]))
+            if op == '-':
+                return (add(a[0], neg(b[1])), add(a[1], neg(b[0])))
+            if op == '*':
+                if le(ZERO, a[0]) and le(ZERO, b[0]):
+                    return (ZERO, INF)
+                return (-INF, INF)
+            if op == '%':
+                if ir.show(e['c'][-1]).replace(' ', '') != Q:
+                    raise AnalysisBroken('modulus is not the product of the characteristics: %s' % t)
+                if le(ZERO, a[0]):
+                    return (ZERO, QM1)
+                return ((-1, 1), QM1)
+        if k == 'UnaryOperator' and e.get('op') == '-':
+            a = ev(e['c'][0], env)
+            return (neg(a[1]), neg(a[0]))
+        raise AnalysisBroken('unknown expression %s (%s)' % (t[:80], k))
+
+    n = 0
+    for f in fns:
+        env = {}
+        bad = None
+        try:
+            for st in (f['body'].get('c') or []):
+                k = st.get('k')
+                if k == 'DeclStmt':
+                    for d in st.get('decls', []):
+                        if d.get('k') == 'VarDecl' and d.get('init') is not None:
+                            env[d['n']] = ev(d['init'], env)
+                elif k == 'IfStmt':
+                    ct = ir.show(st.get('cond')).replace(' ', '').strip('()')
+                    m = re.match(r'^(\w+)<0$', ct)
+                    tt = ir.show(st.get('then')).replace(' ', '')
+                    if m and m.group(1) in env and re.search(r'%s\+=%s' % (m.group(1), Q), tt):
+                        lo, hi = env[m.group(1)]
+                        # negative part shifted by Q, non-negative part kept
+                        nlo = ZERO if le(ZERO, add(lo, (1, 0))) else add(lo, (1, 0))
+                        env[m.group(1)] = (nlo if le(nlo, ZERO) else ZERO, hi)
+                        if not le(ZERO, add(lo, (1, 0))):
+                            env[m.group(1)] = (add(lo, (1, 0)), hi)
+                        else:
+                            env[m.group(1)] = (ZERO, hi)
+                    else:
+                        raise AnalysisBroken('unknown statement: if (%s)' % ct)
+                elif k == 'ReturnStmt':
+                    n += 1
+                    lo, hi = ev(st.get('value'), env)
+                    if not (le(ZERO, lo) and le(hi, QM1)):
+                        bad = (st, lo, hi)
+                elif ir.is_call(st) and ir.call_name(st) in ('__assert_fail',) or k in ('NullStmt', 'ConditionalOperator'):
+                    continue
+                else:
+                    raise AnalysisBroken('unknown statement %s' % ir.show(st)[:60])
+        except AnalysisBroken as ex:
+            raise AnalysisBroken('C10: cohomology Multi_field::%s: %s' % (f['name'], ex))
+
+        def showb(b_):
+            if b_ in (INF, -INF):
+                return 'unbounded'
+            a_, c_ = b_
+            return ('%s%s' % ('' if a_ == 0 else ('Q' if a_ == 1 else '-Q' if a_ == -1 else '%d*Q' % a_),
+                              ('%+d' % c_ if c_ else '') if a_ else str(c_))) or '0'
+        chk.ob('E3-closure', 'cohomology Multi_field::%s returns a reduced element (interval arithmetic over mpz)'
+               % f['name'], '%s:%d' % (rel(f['file']), f['line']), bad is None,
+               '' if bad is None else '`%s` ranges over [%s, %s] for reduced operands, not within [0, Q-1]' %
+               (ir.show(bad[0].get('value'))[:100], showb(bad[1]), showb(bad[2])),
+               key='E3-closure|cohomology Multi_field::%s|closure' % f['name'])
+    chk.expect_count('E3-closure', 'returns of the cohomology multi-field arithmetic', n, 2)
+
+
+# ------------------------------------------------------------------ machine integers reach the reduction untruncated
+
+def run_use_sites(chk, F):
+    """E4-use-site: "converting any machine integer yields its residue". drivers/fields_inst.cpp hands machine
+    integers of several types (narrower, wider, signed, unsigned) to the constructors, the mixed operators and
+    get_value of the field classes; in each instantiated use site the argument must not go through a narrowing
+    integral conversion on its way into the library (the overload chosen would reduce the truncated value)."""
+    n = 0
+    for f in F.functions:
+        if f['name'] not in ('gsa_use_ops', 'gsa_use_value') or f.get('inst') != 1 or f.get('body') is None:
+            continue
+        n += 1
+        what = (f.get('targs') or '').replace('Gudhi::persistence_fields::', '')
+        bad = None
+        for x in ir.walk(f['body']):
+            if x.get('k') in ir.CAST_KINDS and x.get('ck') == 'IntegralCast':
+                ch = ir.skipcasts(x['c'][0])
+                if ch is not None and ch.get('k') == 'DeclRefExpr' and ch.get('n') == 'v' and x.get('bits') and \
+                        ch.get('bits') and bad is None:
+                    if ch.get('sgn'):
+                        lossless = x.get('sgn') and x['bits'] >= ch['bits']      # a negative value must stay negative
+                    else:
+                        lossless = x['bits'] > ch['bits'] or (not x.get('sgn') and x['bits'] >= ch['bits'])
+                    if not lossless:
+                        bad = (x, ch)
+        chk.ob('E4-use-site', 'use site <%s>: the integer argument is not truncated' % what[:100],
+               'drivers/fields_inst.cpp:%s' % f.get('line'), bad is None,
+               '' if bad is None else 'line %s: the %s argument is converted to %s (%d bits, %s) before the call: the '
+               'overload chosen cannot represent it, a negative or wider value is changed before it is reduced' %
+               (bad[0].get('l'), bad[1].get('t'), bad[0].get('t'), bad[0]['bits'],
+                'signed' if bad[0].get('sgn') else 'unsigned'), key='E4|use-site|%s' % what[:120])
+    chk.expect_count('E4-use-site', 'instantiated use sites', n, 25)
